@@ -33,14 +33,18 @@ func l1ExportJSON(l1 *sim.L1) []byte {
 }
 
 // importL1 builds a fresh chain from the exported genesis of src (ophost + auth + bank), at the same header.
-func importL1(src *sim.L1) (dst *sim.L1, err error) {
+func importL1(src *sim.L1) (dst *sim.L1, err error) { return importL1Opts(src, true) }
+
+// importL1Opts: validate=false skips ValidateGenesis, as a node does when it starts from a genesis file (validation is a
+// separate, offline command).
+func importL1Opts(src *sim.L1, validate bool) (dst *sim.L1, err error) {
 	defer func() {
 		if r := recover(); r != nil {
 			err = fmt.Errorf("import panicked: %v", r)
 		}
 	}()
 	gs := src.K.ExportGenesis(src.Ctx)
-	if verr := ophosttypes.ValidateGenesis(gs, src.AK.AddressCodec()); verr != nil {
+	if verr := ophosttypes.ValidateGenesis(gs, src.AK.AddressCodec()); verr != nil && validate {
 		return nil, fmt.Errorf("ValidateGenesis(Export) failed: %w", verr)
 	}
 	// round-trip through JSON, as a real genesis file would
@@ -59,6 +63,40 @@ func importL1(src *sim.L1) (dst *sim.L1, err error) {
 		dst.Ctx.KVStore(dst.Keys[kv.Store]).Set(kv.Key, kv.Value)
 	}
 	return dst, nil
+}
+
+// migrateL1 replaces the env's chain by one started from its exported genesis (export, validate, JSON, InitGenesis on a
+// fresh chain; auth and bank travel along): a chain upgrade / restart from genesis in the middle of a history. The
+// history then continues on the imported chain, still watched by the same monitors. Returns false (and changes
+// nothing) if the export cannot be imported.
+func migrateL1(e *L1Env) bool {
+	old := e.L1
+	dst, err := importL1Opts(old, false)
+	if err != nil || dst == nil {
+		return false
+	}
+	dst.T, dst.Speculate, dst.Shadow, dst.RestartEvery = old.T, old.Speculate, old.Shadow, old.RestartEvery
+	e.L1 = dst
+	sim.ShadowStats.Migrations.Add(1)
+	return true
+}
+
+// migrateL2: as migrateL1, for the L2 (the cached L1 validator snapshot and per-height history do not travel, as the
+// module documents).
+func migrateL2(e *L2Env) bool {
+	old := e.L2
+	dst, _, err := importL2(e)
+	if err != nil || dst == nil {
+		return false
+	}
+	n := dst.L2
+	n.T, n.Speculate, n.Shadow, n.RestartEvery = old.T, old.Speculate, old.Shadow, old.RestartEvery
+	for h, p := range old.K.ExecutorChangePlans {
+		n.K.ExecutorChangePlans[h] = p
+	}
+	e.L2 = n
+	sim.ShadowStats.Migrations.Add(1)
+	return true
 }
 
 // l1Probe runs a fixed script of messages and queries and returns a transcript.
@@ -488,7 +526,19 @@ func (c *c16) l2Histories(n, steps int) {
 				}
 			default:
 				if !w.endBlock() {
-					s = steps // the chain halted (e.g. every validator was removed): the history ends, nothing to sample
+					// the chain halted (every validator was removed): the history ends. The module's state is still a
+					// state somebody may export (to restart the chain with a replacement validator added first)
+					if w.m.halted {
+						nv := NewValKey(40 + h%5)
+						if w.addValidator(nv, 40+h%5, 40+h%5).Class == sim.OK {
+							feat["exported_with_empty_bonded_set"] = true
+							// the engine model refused the empty set and still holds the last validator; the comparison is
+							// between two chains that both start their consensus state anew
+							w.e.L2.ResetEngine()
+							c.l2State(w, []ValKey{nv}, feat)
+						}
+					}
+					s = steps
 					continue
 				}
 			}
